@@ -43,6 +43,7 @@ type step struct {
 }
 
 type schedule struct {
+	Id  int    `json:"id"` // number of the schedule in the check's list (several harness processes share the list)
 	Cap int    `json:"cap"`
 	Ops []step `json:"ops"`
 }
@@ -450,7 +451,15 @@ func main() {
 	workers := flag.Int("workers", 6, "parallel recoveries")
 	only := flag.Int("only", -1, "run only this schedule")
 	self := flag.Bool("selftest", false, "corrupt one expectation (binding self-test)")
+	repro := flag.Bool("repro", false, "run only the minimal reproductions of the findings of this slice")
 	flag.Parse()
+	if *repro {
+		res := vh.NewResult()
+		reproTsFile(*dir, res)
+		res.Distinct = res.Evaluations
+		res.Emit()
+		return
+	}
 	if pf := os.Getenv("VERIF_CPUPROF"); pf != "" {
 		f, err := os.Create(pf)
 		vh.Must(err, "create profile")
@@ -471,7 +480,7 @@ func main() {
 		t0 := time.Now()
 		root := filepath.Join(*dir, fmt.Sprintf("s%d", i), "data")
 		vh.Must(os.MkdirAll(root, 0755), "mkdir")
-		r := &run{idx: i, sch: sch, root: root, tr: storetrace.New(root), dbs: map[string]*dbTrack{}, res: res,
+		r := &run{idx: sch.Id, sch: sch, root: root, tr: storetrace.New(root), dbs: map[string]*dbTrack{}, res: res,
 			rng: rand.New(rand.NewSource(*seed*1000003 + int64(i))), self: *self, seed: *seed}
 		r.tr.RecordOps = true
 		pn, hung, msg := vh.Guard(10*time.Minute, r.execute)
